@@ -540,7 +540,8 @@ fn read_code<C: CodeVisitor>(
 	{
 		// We do this so that we can't read more than the bytecode
 		let mut r = Cursor::new(&bytecode);
-		while !r.get_ref()[(r.position() as usize)..].is_empty() {
+		// an operand skipped over may reach past the end, so compare positions instead of slicing
+		while (r.position() as usize) < r.get_ref().len() {
 			// We may cast this to an u16, since we checked above that the length of the bytecode is less than 65536.
 			// Note that the value of u16::MAX = 65535 is not even possible as a value here.
 			let opcode_pos = r.position() as u16;
@@ -647,6 +648,9 @@ fn read_code<C: CodeVisitor>(
 				Ok(())
 			})()
 				.with_context(|| anyhow!("at bytecode offset {}", opcode_pos))?;
+		}
+		if r.position() as usize != bytecode.len() {
+			bail!("the last instruction reaches past the end of the bytecode of length {code_length}");
 		}
 	}
 
